@@ -1,4 +1,5 @@
 import UtilModel.Core.LTSHash
+import UtilModel.Core.LTSComplete
 import UtilModel.CSync.RWObsC02
 import UtilModel.CSync.MxObsC02
 /-!
@@ -73,5 +74,34 @@ theorem cands_complete_mutex (s s' : Mx.St) (e : Ev) (hs : Mx.step s e = some s'
          first
            | exact mem_internalCandsAux s.th 0 _ _ _ h (by simp [threadCands])
            | (rename_i h2; exact mem_internalCandsAux s.th 0 _ _ _ h2 (by simp [threadCands])))
+
+end UtilModel.CSync
+
+namespace UtilModel.CSync
+open UtilModel
+
+theorem Ev.obs_ev (e : Ev) (o : Obs) (h : e.obs = some o) : o.ev = e := by
+  cases e <;> simp [Ev.obs] at h <;> subst h <;> rfl
+
+theorem complete_rw : RW.model.Complete :=
+  ⟨fun s e s' hs ho => cands_complete_rw s s' e hs ho, fun _ e _ o _ ho => by simp [RW.model, Ev.obs_ev e o ho]⟩
+
+theorem complete_mutex : Mx.model.Complete :=
+  ⟨fun s e s' hs ho => cands_complete_mutex s s' e hs ho, fun _ e _ o _ ho => by simp [Mx.model, Ev.obs_ev e o ho]⟩
+
+/-- **A REJECT of the RWMutex correspondence is about the model**: when the driver's run fails at
+an observable without having hit the exploration bounds, no run of the RWMutex model projects to
+the recorded history. -/
+theorem reject_sound_rw (cap fuel : Nat) (h : List Obs) (i : Nat)
+    (hfail : (RW.model.accRunH cap fuel [RW.model.init] h 0 false 1).failedAt = some i)
+    (htr : (RW.model.accRunH cap fuel [RW.model.init] h 0 false 1).truncated = false) :
+    ¬ ∃ es s, RW.model.run RW.model.init es = some s ∧ es.filterMap RW.model.obs = h :=
+  rejectH_sound RW.model complete_rw cap fuel h i hfail htr
+
+theorem reject_sound_mutex (cap fuel : Nat) (h : List Obs) (i : Nat)
+    (hfail : (Mx.model.accRunH cap fuel [Mx.model.init] h 0 false 1).failedAt = some i)
+    (htr : (Mx.model.accRunH cap fuel [Mx.model.init] h 0 false 1).truncated = false) :
+    ¬ ∃ es s, Mx.model.run Mx.model.init es = some s ∧ es.filterMap Mx.model.obs = h :=
+  rejectH_sound Mx.model complete_mutex cap fuel h i hfail htr
 
 end UtilModel.CSync
